@@ -83,6 +83,31 @@ def grid(seed, dname, paths=None):
             ops.append({"op": "get", "c": "emb@owner", "d": dname, "k": t["k"]})
             ops.append({"op": "dump", "d": dname, "k": t["k"]})
     ops += finals
+    # several commands queued in ONE pipeline before Exec (different keys, different values): the same results and stored
+    # entries as the same commands issued one by one
+    if paths == ["pipe"] or paths is None:
+        for rnd in range(2):
+            bk = [fresh("present" if j % 2 else "absent") for j in range(8)] if rnd == 0 else bk
+            if rnd == 0:
+                ops += setup[-4:]          # the "present" keys of the batch (fresh() queued their set-up Puts)
+            batch = []
+            for j, k in enumerate(bk):
+                what = ["getput", "getput", "put", "getput", "incr", "getput", "expire", "getput"][j] if rnd == 0 else \
+                       ["getput", "get", "getput", "getput", "decr", "getput", "del", "put"][j]
+                it = {"op": what, "k": k}
+                if what in ("getput", "put"):
+                    it["v"] = hexs("b%d-%d-%s" % (rnd, j, "x" * (3 * j)))
+                if what == "put" and rnd == 0:
+                    it["px"] = 60000
+                if what in ("incr", "decr"):
+                    it["delta"] = 7 + j
+                if what == "expire":
+                    it["ms"] = 60000
+                batch.append(it)
+            ops.append({"op": "pipebatch", "d": dname, "batch": batch})
+            for k in bk:
+                ops.append({"op": "get", "c": "emb@owner", "d": dname, "k": k})
+                ops.append({"op": "dump", "d": dname, "k": k})
     return ops
 
 
